@@ -33,6 +33,15 @@ def configs(ctx):
                         if ctx.quick and J == 3 and (H, W) not in ((16, 16), (10, 12)):
                             continue
                         items.append(('near_sym_a', 'qshift_a', H, W, J, 1, 2, 2, -1, mask, kind, low_absent))
+    # the zero-padding mode (level 1 only honours it): absent entries vs explicit zeros given to the same module
+    for (H, W) in ((8, 8), (16, 16), (12, 20)):
+        for J in (1, 2):
+            for mask in range(0, 2 ** J):
+                for kind in ('none', 'empty'):
+                    for low_absent in (False, True):
+                        if (not mask and not low_absent) or (low_absent and mask == 2 ** J - 1):
+                            continue
+                        items.append(('near_sym_a', 'qshift_a', H, W, J, 1, 2, 2, -1, mask, kind, low_absent, 'zero'))
     return items
 
 
